@@ -560,6 +560,22 @@ vx_fail(const char *sig, const char *fmt, ...) {
   obs_append(line, (size_t)n, 0);
 }
 int vx_failed(void) { return g_slot ? g_slot->nfail : 0; }
+/* end the execution right now (e.g. after a deadlock was detected and other threads cannot be unwound) */
+void
+vx_exit_now(void) {
+  if (g_mode == 1 && g_slot) {
+    g_slot->done = 1;
+    _exit(0);
+  }
+  if (g_mode == 2 && g_slot) {
+    printf("REPLAY-RESULT fails=%d (execution ended early)\n", g_slot->nfail);
+    for (int i = 0; i < g_slot->nfail; i++)
+      printf("VIOLATION-REPRODUCED sig=%s msg=%s\n", g_slot->sig[i], g_slot->msg[i]);
+    fflush(stdout);
+    _exit(g_slot->nfail ? 1 : 0);
+  }
+  _exit(0);
+}
 void
 vx_nontrivial(void) {
   if (g_slot)
